@@ -129,6 +129,7 @@ class Program(object):
 
         for index, statement in enumerate(self.statements):
             statement.fix_addresses(self.statements, index)
+            statement.fit_operand_to_reserved_size()
 
         # Update the symbol table with the proper addresses
         for symbol, value in self.symbol_table.items():
